@@ -14,7 +14,7 @@ from checks.c12 import Corruptor
 from twisted.internet.defer import inlineCallbacks
 import wormhole
 from wormhole import transit
-from wormhole.cli import cmd_receive
+from wormhole.cli import cmd_receive, cmd_send
 from wormhole.util import bytes_to_dict, dict_to_bytes, bytes_to_hexstr
 
 PROP = "C04"
@@ -47,6 +47,7 @@ RULE += (' Also: retry after an interrupted attempt (stale <name>.tmp), and a tr
 RULE += (' Texts and offered names include sequences that are not in Unicode NFC form.')
 RULE += (" Seeded runs also include a receiver whose free-space estimate is below / at / just above the announced size (refusal paths), and --verify on both sides with a sending user who confirms after some dithering or refuses.")
 RULE += (' Directory trees include the project/project shape (the only entry is a directory named like the tree).')
+RULE += (' The offered file may grow between the offer and the transfer (by bytes that stay inside the last record, or by more).')
 RULE += (' File contents are random bytes in half of the runs and structured otherwise (all NUL, NUL tail or head of any length, short patterns such as CR LF / ^Z / 0xff repeated).')
 LEVEL_TEXT = ("Fault enumeration over cut/corruption points of fixed payloads "
               "plus seeded exploration. Oracle: receive() success => the tree "
@@ -136,6 +137,7 @@ def configs(tier):
 
 
 _REAL_FREE_SPACE = cmd_receive.estimate_free_space
+_REAL_BUILD_OFFER = cmd_send.Sender._build_offer
 
 
 def content(tape, size, tag):
@@ -249,6 +251,7 @@ def run_one(seed, tape, opts):
         cmd_receive.open = open
         cmd_receive.os = os
         cmd_receive.estimate_free_space = _REAL_FREE_SPACE
+        cmd_send.Sender._build_offer = _REAL_BUILD_OFFER
         w.cleanup()
 
 
@@ -292,6 +295,12 @@ def _run(seed, tape, opts, w):
             # is below / at / just above what the offer announces
             fault = ["space", tape.pick((0, 1, -1, "exact", "plus1"), "free"),
                      0]
+        elif kind == "file" and fk == 6:
+            # the file grows after it was offered (a log still being written,
+            # a download still running): by a few bytes that stay inside the
+            # last record, or by more
+            fault = ["grow", tape.pick((1, 10, 300, 20000), "grow_k"),
+                     tape.choose(120, "grow_at")]
         elif fk == 7:
             # --verify on both sides: the sending user is asked to confirm
             # the verifier and answers after some dithering, or refuses
@@ -407,6 +416,31 @@ def _run(seed, tape, opts, w):
             sim.note("fault.free_space_estimate")
             return n
         cmd_receive.estimate_free_space = free_space
+    grown = {"done": False, "clean": False}
+    if fault and fault[0] == "grow":
+        offer_built = [None]
+        orig_build = cmd_send.Sender._build_offer
+
+        def build_offer(self_):
+            r_ = orig_build(self_)
+            offer_built[0] = sim.steps
+            return r_
+        cmd_send.Sender._build_offer = build_offer
+
+        def grow_tick():
+            # (after the offer was made: the size announced is the old one)
+            if grown["done"] or offer_built[0] is None or \
+                    sim.steps < offer_built[0] + fault[2] % 40:
+                return
+            grown["done"] = True
+            # only judged when no transit byte had moved yet (the sender reads
+            # the file once the receiver has answered)
+            grown["clean"] = not w.transit_links
+            with open(src, "ab") as f:
+                f.write(tape.blob(fault[1], 77))
+            sim.ev("env", "source_file_grew", fault[1])
+            sim.note("fault.file_mutation")
+        sim.after_step = grow_tick
     vargs = []
     if fault and fault[0] == "verify":
         vargs = ["--verify"]
@@ -443,9 +477,28 @@ def _run(seed, tape, opts, w):
     r_ok = rres is not None and rres[0] == "ok"
     got = snapshot(w.recv_dir)
     dest = name
+    if grown["done"] and grown["clean"] and s_ok and r_ok:
+        # both report success: what the sender read is the file as it was
+        # when the transfer began, i.e. after it grew
+        now = snapshot(w.send_dir)
+        if not _same_tree({k: v for k, v in now.items() if k == dest},
+                          {k: v for k, v in got.items() if k == dest}, False):
+            viol_grow = ("C04.send_success_wrong_tree", "when both sides "
+                         "report success the receiver has exactly what the "
+                         "sender read", "the offered file grew by %d bytes "
+                         "before the transfer began; both sides report "
+                         "success, receiver has %d bytes, the sender read %d"
+                         % (fault[1], len(got[dest][1]) if dest in got else
+                            -1, len(now[dest][1])))
+        else:
+            viol_grow = None
+    else:
+        viol_grow = None
     fired = bool(fault and (
         (fault[0] in cors and cors[fault[0]].fired) or
-        fault[0] in ("disk", "byz")))
+        fault[0] in ("disk", "byz", "grow")))
+    if viol_grow:
+        V(*viol_grow)
     if payload[0] == "text":
         line = w.recv_cfg.stdout.getvalue()
         if r_ok or s_ok:
